@@ -1550,9 +1550,17 @@ func (th *Thread) callBuiltin(caller *Frame, b *ssa.Builtin, args []Value, cc *s
 		if len(y) == 0 {
 			return x
 		}
+		inPlace := len(x)+len(y) <= cap(x)
 		out := x
 		for _, e := range y {
 			out = append(out, copyVal(e))
+		}
+		if inPlace {
+			// the elements went into the spare capacity of x's backing array: those are
+			// writes to memory another goroutine may share
+			for i := len(x); i < len(out); i++ {
+				th.onWrite(&out[i])
+			}
 		}
 		return out
 	case "copy":
